@@ -55,7 +55,7 @@ BASE_CONSTANTS = {
     "G_LeaderFlush": "TRUE", "G_StaleTermAppend": "TRUE",
     "G_ConfigCommittedFirst": "TRUE", "G_OwnTermBeforeConfig": "TRUE", "G_PromoteAfterRound": "TRUE",
     "G_NonVoterNoElection": "TRUE", "G_StepDownWhenDemoted": "TRUE",
-    "MaxRoundOrd": 3, "SegSize": 1024, "UpdBytes": 300, "MaxSnaps": 0, "FixD4": "TRUE", "FixD5": "TRUE", "RoundFastSet": "{TRUE}", "MaxCfgReqs": 0, "EdAddPromote": "{}", "EdAddNonvoter": "{}", "EdPromote": "{}", "EdDemote": "{}", "EdRemove": "{}", "EdForceRemove": "{}",
+    "MaxRoundOrd": 3, "SegSize": 1024, "UpdBytes": 300, "MaxSnaps": 0, "FixD4": "TRUE", "FixD5": "TRUE", "FixD11": "TRUE", "RoundFastSet": "{TRUE}", "MaxCfgReqs": 0, "EdAddPromote": "{}", "EdAddNonvoter": "{}", "EdPromote": "{}", "EdDemote": "{}", "EdRemove": "{}", "EdForceRemove": "{}",
     "FixD1": "TRUE", "FixD2": "TRUE",
 }
 
@@ -240,6 +240,55 @@ def run_sim(binary, schedules, workdir, shards=None, timeout=900, tag="sim"):
             raise HarnessError("sim harness failed (rc=%d):\n%s" % (p.returncode, o[-3000:]))
     shutil.rmtree(tmp, ignore_errors=True)
     return outs
+
+
+def run_fuzz(binary, spec, workdir, shards=None, timeout=900, tag="fuzz"):
+    """Randomized Layer-1 driver (weighted towards progress, seeded). Returns record files."""
+    runs = spec["runs"]
+    shards = max(1, min(shards or NCPU, runs))
+    per = (runs + shards - 1) // shards
+    procs, outs = [], []
+    tmp = os.path.join(workdir, tag + "-dirs")
+    os.makedirs(tmp, exist_ok=True)
+    first = 0
+    k = 0
+    while first < runs:
+        n = min(per, runs - first)
+        of = os.path.join(workdir, "%s-rec-%d.ndjson" % (tag, k))
+        e = dict(os.environ, VERIF_FUZZ=json.dumps(dict(spec, runs=n)), VERIF_FUZZ_FIRST=str(first), VERIF_OUT=of, VERIF_TMP=tmp)
+        procs.append(subprocess.Popen([binary, "-test.run", "^TestVerifFuzz$", "-test.timeout", "%ds" % timeout],
+                                      cwd=workdir, env=e, stdout=subprocess.PIPE, stderr=subprocess.STDOUT, text=True))
+        outs.append(of)
+        first += n
+        k += 1
+    for p in procs:
+        try:
+            o, _ = p.communicate(timeout=timeout + 30)
+        except subprocess.TimeoutExpired:
+            p.kill()
+            raise HarnessError("fuzz harness timed out")
+        if p.returncode != 0:
+            raise HarnessError("fuzz harness failed (rc=%d):\n%s" % (p.returncode, o[-3000:]))
+    shutil.rmtree(tmp, ignore_errors=True)
+    return outs
+
+
+def schedules_from_records(files):
+    """Rebuilds the stimulus sequences of recorded runs (for replay files and trace-validation grouping)."""
+    res = {}
+    order = []
+    for f in files:
+        with open(f) as fh:
+            for line in fh:
+                r = json.loads(line)
+                name = r["sched"]
+                if r["ev"].get("kind") == "init":
+                    e = r["ev"]
+                    res[name] = {"name": name, "nodes": e["nodes"], "voters": e["voters"], "nonvoters": e["nonvoters"], "eager": e["eager"], "steps": []}
+                    order.append(name)
+                else:
+                    res[name]["steps"].append(r["stim"])
+    return [res[n] for n in order]
 
 
 def concat(files, dest):
